@@ -26,9 +26,10 @@ for sid in sys.argv[1:]:
         det[p] = {"check": f"python3 scripts/check.py {p} quick (against a scratch worktree with the change applied, VERIF_REPO)", "exit": int(ex.group(1)) if ex else None,
                   "violation_line": vio.group(0).replace(V + "/", "") if vio else None,
                   "concrete_failing_input": bool(vio) and not vio.group(2)}
-        if vio and os.path.exists(vio.group(1)):
+        rp = os.path.join(d, f"replay-{p}.json")
+        if vio and (os.path.exists(rp) or os.path.exists(vio.group(1))):
             try:
-                r = json.load(open(vio.group(1)))
+                r = json.load(open(rp if os.path.exists(rp) else vio.group(1)))
                 det[p]["replay_kind"] = r.get("kind"); det[p]["monitor"] = (r.get("monitor") or "")[:300]; det[p]["profile"] = r.get("profile")
                 if r.get("broken"): det[p]["broken"] = r["broken"][:3]
             except Exception: pass
